@@ -70,7 +70,7 @@ def check(ctx, only=None, list_only=False):
     res = core.run_all(ctx, obs)
     meta = {
         "functions_encoded": [f for _, f in FUNCS],
-        "bounds": "ell in {0,1,2,3} (thorough: also 4, 8); every operand value of each layout symbolic (a: <2^32, b: any 64-bit, c: first word any "
+        "bounds": "every ell <= 10000 by loop summarisation from the VC at 6 iterations (see C04 / DESIGN.md A.3); executed in full for ell in {0,1,2,3} (thorough: also 4, 8); every operand value of each layout symbolic (a: <2^32, b: any 64-bit, c: first word any "
                   "32-bit value, second word congruent to first*2^32); default 30-bit prime set; precomputed h / 2^e mod q constants dumped from the real builders",
         "outside": "ell between 4 (9) and 10000 as a single solver-decided congruence (wrap-freedom up to 10000 terms is C04's obligation; additivity of the "
                    "accumulators then carries the congruence)",
